@@ -6,7 +6,8 @@
 (declare-fun addr_of (Str) Str)
 (declare-fun bech32_ok (Str) Bool)
 (assert (forall ((a Str)) (! (and (= (addr_of (bech32 a)) a) (bech32_ok (bech32 a))) :pattern ((bech32 a)))))
-(assert (forall ((s Str)) (! (=> (bech32_ok s) (= (bech32 (addr_of s)) s)) :pattern ((addr_of s)))))
+; NOT assumed: bech32_ok(s) => bech32(addr_of(s)) == s.  Decoding accepts the all-upper-case spelling of an address as
+; well (BIP-173), so two different strings name the same account and String() returns only the lower-case one.
 ; result of moving coins c from a to b
 (define-fun bank_moved ((old (Array Str (Array Str Int))) (new (Array Str (Array Str Int))) (from Str) (to Str) (c Coins)) Bool
   (forall ((x Str) (d Str)) (! (= (select (select new x) d)
